@@ -42,7 +42,7 @@ LEVEL = "fault_enumeration"
 REQUIRED_CLASSES = ["fault:k=0(assigned-location)", "fault:mid", "fault:last", "fault:user-function",
                     "fault:function-task-action", "consecutive-faults", "observed:sete", "observed:setv",
                     "fault-type:KeyError", "fault-type:AttributeError", "fault-type:Injected", "fault-type:RuntimeError",
-                    "with-linear-knob"]
+                    "with-linear-knob", "two-stage", "two-stage:target-did-not-exist-and-first-write-failed"]
 
 
 class Injected(Exception):
@@ -145,6 +145,17 @@ def cases(draw, opts):
     else:
         del g.ops[n_before:]
     c["ops"] = list(g.ops)
+    # a second, DIFFERENT assignment for the two-stage family: a plain value for an input of the observed definition
+    # (executed after a faulty first attempt, and failing itself)
+    c["obs2"] = None
+    c["k1"] = draw(st.sampled_from([0, 0, 0, 1, 2, 5]))
+    if c["obs"] is not None and c["obs"]["op"] == "sete":
+        rd = sorted(k for k in E.reads(c["obs"]["ast"]) if k in W.NUM_LEAVES or k in (W.IDX_LEAF, W.KEY_LEAF))
+        if rd:
+            k = draw(st.sampled_from(rd))
+            v = draw(st.integers(0, 2)) if k == W.IDX_LEAF else draw(st.sampled_from(["p", "q"])) if k == W.KEY_LEAF \
+                else draw(H.hist_numbers)
+            c["obs2"] = {"op": "setv", "loc": W.json_loc(k), "v": E.enc(v)}
     c["ks"] = [draw(st.integers(0, 40)) for _ in range(4)]
     c["seq"] = [draw(st.integers(0, 40)) for _ in range(draw(st.integers(2, 3)))]
     c["fault_type"] = draw(st.sampled_from(sorted(FAULT_TYPES)))
@@ -303,6 +314,58 @@ def exec_case(ctx, case):
             return finish(Failure("C18:repeat-does-not-recover",
                                   dict(where, after="consecutive faults", location=dd[0] if dd else "?",
                                        real=dd[1] if dd else "?", expected=dd[2] if dd else "?")), True)
+    # ---- two stages: a faulty attempt of the observed assignment (at its first write when k1 = 0: a location that did
+    # not exist yet is then still missing, with its definition registered), then a DIFFERENT assignment - a new value for
+    # an input of that definition - that fails at each of its own crash points; reference: a twin that took the same
+    # first fault and then the second assignment fault-free
+    obs2 = case.get("obs2")
+    if obs2 is not None and n >= 1:
+        k1 = case.get("k1", 0) % n
+        ft = case.get("fault_type", "Injected")
+
+        def prepared():
+            w = build_world(case)
+            run_observed(w, obs, k1, ft)
+            return w
+        try:
+            twin2 = prepared()
+        except Exception:
+            return finish(None)
+        W2c, W2raw, exc2, _ = run_observed(twin2, obs2, None)
+        if exc2 is not None:
+            classes.add("two-stage:second-assignment-raises-without-fault")
+            return finish(None)
+        classes.add("two-stage")
+        tloc = W.tuple_loc(obs["loc"])
+        if tloc in W.FRESH_LEAVES and k1 == 0:
+            classes.add("two-stage:target-did-not-exist-and-first-write-failed")
+        ref2_graph = graph_state(twin2)
+        ref2_final = canon_data(twin2.roots)
+        n2 = len(W2c)
+        for k2 in (range(n2) if n2 <= 6 else sorted({0, 1, n2 - 1, n2 // 2})):
+            w = prepared()
+            ctx.stats.evaluations += 1
+            ctx.stats.extra["crash_points_executed"] = ctx.stats.extra.get("crash_points_executed", 0) + 1
+            got, _, exc, inj = run_observed(w, obs2, k2, ft)
+            wh = dict(where, first_attempt=f"fault at event {k1} of {n}", second_assignment=W.render_op(obs2),
+                      crash_point=k2, events=n2, fault_type=ft, failing_event=repr(W2c[k2])[:120])
+            if exc is None:
+                return finish(Failure("C18:fault-swallowed", wh), True)
+            if exc is not inj:
+                return finish(Failure(f"C18:other-exception-reaches-caller:{type(exc).__name__}", dict(wh, raised=repr(exc)[:200])), True)
+            if got != W2c[:k2 + 1]:
+                return finish(Failure("C18:events-differ-from-prefix", dict(wh, observed=repr(got[-2:])[:300], expected=repr(W2c[:k2 + 1][-2:])[:300])), True)
+            f = graph_checks(w, ref2_graph, wh)
+            if f:
+                return finish(f, True)
+            got, _, exc, _ = run_observed(w, obs2, None)
+            if exc is not None:
+                return finish(Failure(f"C18:repeat-raises:{type(exc).__name__}:{xdeps_frame(exc)}", dict(wh, raised=repr(exc)[:200])), True)
+            if canon_data(w.roots) != ref2_final:
+                dd = W._diff(w.roots["d"], twin2.roots["d"], "d") or W._diff(w.roots["e"], twin2.roots["e"], "e") or \
+                    W._diff(w.roots["g"], twin2.roots["g"], "g")
+                return finish(Failure("C18:repeat-does-not-recover", dict(wh, location=dd[0] if dd else "?", real=dd[1] if dd else "?",
+                                                                         expected=dd[2] if dd else "?")), True)
     return finish(None)
 
 
@@ -324,7 +387,7 @@ def graph_checks(world, ref_graph, wh):
 
 def run(ctx):
     n = ctx.n(400, 3000)
-    opts = H.Opts(knobs=True, knob_single_target=True, max_ops=20, maint=False)
+    opts = H.Opts(knobs=True, knob_single_target=True, max_ops=20, maint=False, fresh=True)
     drive(ctx, cases(opts), lambda c: exec_case(ctx, c), n, salt=1, label="C18")
 
 
